@@ -161,8 +161,8 @@ def ite_leaves(v: Any, out: list[Any] | None = None) -> list[Any]:
 
 
 def enumerate_models(terms: Sequence[Poly],
-                     side: Callable[[OrderModel], bool] | None = None) \
-        -> Iterator[OrderModel]:
+                     side: Callable[[OrderModel], bool] | None = None,
+                     integer: bool = False) -> Iterator[OrderModel]:
     """
     All order models of the given value terms.
 
@@ -182,6 +182,13 @@ def enumerate_models(terms: Sequence[Poly],
                     break
             if not ok:
                 break
+        if ok and integer:
+            # integer-valued terms: nothing lies strictly between c and c+1
+            for (i, a) in consts:
+                for (j, b) in consts:
+                    if b - a == 1 and any(
+                            ranks[i] < r < ranks[j] for r in ranks):
+                        ok = False
         if not ok:
             continue
         m.ranks = ranks
